@@ -233,7 +233,7 @@ theorem mpub_refines (conf : Conf) (s : ConnState) (b : Broker) (tl : List Bytes
             · rw [if_neg h1]
               have hsz : mpubSizeOk conf rest = true := by
                 simp only [mpubSizeOk, hl, Bool.and_eq_true, decide_eq_true_eq]; omega
-              cases hm : Mpub.readMPUB conf.maxMsgSize conf.maxBodySize r with
+              cases hm : Mpub.readMPUB conf.maxMsgSize conf.maxBodySize (r.take n.toNat) with
               | err code =>
                 exact allowed_err' conf s cMPUB _ rest .mpub (.batch code) hc hp (batch_mem code)
                   (by simp [hasDefect, hsz, mpubBatch, hl, hm])
